@@ -120,9 +120,45 @@ func runC01(rep *Report, r *Rng, tier string) {
 			}
 		}
 	}
+	// corpus: AND / OR nodes with 64, 80 and 200 operands, evaluated while the process has far more, and far fewer,
+	// CPUs than the node has operands
+	{
+		d := &DataSpec{Seed: r.U64(), NRows: 500, Cols: []ColSpec{{Name: hx("a"), NVals: 4, Dist: "random", Style: "ascii"}, {Name: hx("b"), NVals: 3, Dist: "random", Style: "ascii"}, {Name: hx("u"), NVals: 500, Dist: "unique", Style: "ascii"}}}
+		E := func(c, v string) *Ex { return &Ex{Op: "E", C: hx(c), V: hx(v)} }
+		var qs []QCase
+		for _, w := range []int{64, 80, 200} {
+			and := &Ex{Op: "A"}
+			or := &Ex{Op: "O"}
+			for k := 0; k < w; k++ {
+				and.Kids = append(and.Kids, &Ex{Op: "N", Kids: []*Ex{E("u", fmt.Sprint(k))}})
+				or.Kids = append(or.Kids, E("u", fmt.Sprint(k*2)))
+			}
+			and.Kids = append(and.Kids, E("a", "1"))
+			qs = append(qs, QCase{E: and}, QCase{E: or}, QCase{E: &Ex{Op: "N", Kids: []*Ex{and}}}, QCase{E: &Ex{Op: "A", Kids: []*Ex{or, E("b", "0")}}, GB: []string{hx("a")}})
+		}
+		for _, procs := range []int{128, 1, 3} {
+			old := runtime.GOMAXPROCS(procs)
+			procsPinned.Store(true)
+			for _, pre := range []bool{false, true} {
+				c := &IdxCase{Data: d, Writer: "mem", Preload: pre, Cache: -1, Queries: qs}
+				runIdxCase(o, c, rep, flagsFor("C01"))
+				rep.Count(fmt.Sprintf("wide-nodes-gomaxprocs=%d", procs))
+			}
+			procsPinned.Store(false)
+			runtime.GOMAXPROCS(old)
+		}
+	}
 	sizes := []int{1000, 4096}
 	if tier == "thorough" {
 		sizes = append(boundarySizes, 150000)
+		// one value held by more than 2^18 rows, both writers
+		for _, w := range []string{"mem", "big"} {
+			d := &DataSpec{Seed: r.U64(), NRows: 300000, Cols: []ColSpec{{Name: hx("country"), NVals: 30, Dist: "dense", Style: "ascii"}}}
+			E := func(c, v string) *Ex { return &Ex{Op: "E", C: hx(c), V: hx(v)} }
+			c := &IdxCase{Data: d, Writer: w, Cache: -1, Queries: []QCase{{E: E("country", "0")}, {E: &Ex{Op: "N", Kids: []*Ex{E("country", "0")}}}, {E: &Ex{Op: "O", Kids: []*Ex{E("country", "0"), E("country", "1")}}}}}
+			runIdxCase(o, c, rep, flagsFor("C01"))
+			rep.Count("value-with-300000-rows")
+		}
 	}
 	for _, n := range sizes {
 		for _, w := range writers {
@@ -223,6 +259,35 @@ func runC05(rep *Report, r *Rng, tier string) {
 			rep.Count("single-value-4096-boundary")
 		}
 	}
+	// rows with far more columns than usual (100 and 300 pairs in one AddRow), every writer
+	for _, w := range writers {
+		var rws [][]string
+		for i := 0; i < 40; i++ {
+			var row []string
+			ncol := 3
+			if i%4 == 0 {
+				ncol = 100
+			}
+			if i == 20 {
+				ncol = 300
+			}
+			for cidx := 0; cidx < ncol; cidx++ {
+				row = append(row, hx(fmt.Sprintf("c%03d", cidx)), hx(fmt.Sprintf("v%d", (i+cidx)%3)))
+			}
+			rws = append(rws, row)
+		}
+		d := &DataSpec{Rows: rws}
+		E := func(c, v string) *Ex { return &Ex{Op: "E", C: hx(c), V: hx(v)} }
+		var qs []QCase
+		for _, cidx := range []int{0, 2, 63, 64, 65, 88, 99, 128, 129, 130, 255, 256, 299} {
+			for v := 0; v < 3; v++ {
+				qs = append(qs, QCase{E: E(fmt.Sprintf("c%03d", cidx), fmt.Sprintf("v%d", v))})
+			}
+		}
+		c := &IdxCase{Data: d, Writer: w, Cache: -1, Queries: qs}
+		runIdxCase(o, c, rep, flagsFor("C05"))
+		rep.Count("wide-rows")
+	}
 	// a leftover file next to the output (<output>.tmp holding an old index) must not influence the new index
 	for k := 0; k < 2; k++ {
 		d := genDataSpec(r, 300, false)
@@ -265,7 +330,44 @@ func runC05(rep *Report, r *Rng, tier string) {
 	rep.OracleCalls = o.n
 }
 
+// reuseAcrossLifetimes: one grouped *Query value is executed on a series of indexes that are opened, used, closed and
+// dropped one after the other (garbage collections in between), each holding other values in the group-by column;
+// every answer equals a fresh equal query's on that index.
+func reuseAcrossLifetimes(rep *Report, r *Rng) {
+	q := &updog.Query{Expr: &updog.ExprNot{Expr: &updog.ExprEqual{Column: "k", Value: "none"}}, GroupBy: []string{"k", "g"}}
+	rounds := 40
+	for round := 0; round < rounds; round++ {
+		var rows []map[string]string
+		for i := 0; i < 30; i++ {
+			rows = append(rows, map[string]string{"k": fmt.Sprintf("v%d", (i%5)*(round%4+1)+round%3), "g": fmt.Sprint(i % 2)})
+		}
+		path := scratch(fmt.Sprintf("c08-life-%d.updog", round%3))
+		os.Remove(path)
+		if _, err := buildIndexFile("mem", rows, path); err != nil {
+			infra("build: %v", err)
+		}
+		idx, _, err := openIdx(path, round%2 == 0, -1)
+		if err != nil {
+			infra("open: %v", err)
+		}
+		got := safeExecute(idx, q)
+		want := safeExecute(idx, &updog.Query{Expr: &updog.ExprNot{Expr: &updog.ExprEqual{Column: "k", Value: "none"}}, GroupBy: []string{"k", "g"}})
+		idx.Close()
+		idx = nil
+		os.Remove(path)
+		runtime.GC()
+		runtime.GC()
+		rep.Eval(fmt.Sprintf("lifetimes-%d", round), true)
+		rep.Count("reuse-across-index-lifetimes")
+		if got != want {
+			rep.Violate(Violation{Kind: "history", Signature: "C08:reexecute-on-other-index-mismatch", What: fmt.Sprintf("a grouped Query value re-used on the %d-th index of a series (each opened, used, closed, dropped; GC in between) answers differently from a fresh equal query", round+1), Expected: trunc(want, 400), Actual: trunc(got, 400), Case: map[string]any{"scenario": "reuse across index lifetimes", "round": round}})
+			return
+		}
+	}
+}
+
 func runC08(rep *Report, r *Rng, tier string) {
+	defer reuseAcrossLifetimes(rep, r)
 	rep.Rule = "queries (with/without group-by) executed 2..5 times through the SAME *Query value on one index, then on other indexes; each execution compared with the model answer for a fresh query; caller-visible fields compared before/after; non-trivial = grouped query with non-zero count; distinct by (dataset, query, expected)"
 	o := StartOracle()
 	defer o.Close()
@@ -395,6 +497,69 @@ func runC03(rep *Report, r *Rng, tier string) {
 				rep.Violate(Violation{Kind: "obligation", Signature: "C03:cachekey-differs-from-model", What: "cacheKey() differs from the model's key function for " + e.Toks(), Expected: want, Actual: got, Case: c})
 			}
 			rep.Count("keys-compared")
+		}
+	}
+	// corpus: a value containing a NUL byte is cached, then a query names a column that does NOT exist but whose name
+	// and value split the same bytes at another NUL ("a\x00b","c" vs "a","b\x00c"): unknown column, whatever is cached
+	for _, cache := range []int64{-1, 1 << 20} {
+		for _, pre := range []bool{false, true} {
+			d := &DataSpec{Rows: [][]string{{hx("a"), hx("b\x00c"), hx("z"), hx("1")}, {hx("a"), hx("b\x00c")}, {hx("a"), hx("q"), hx("z"), hx("2")}}}
+			E := func(c, v string) *Ex { return &Ex{Op: "E", C: hx(c), V: hx(v)} }
+			c := &IdxCase{Data: d, Writer: "mem", Preload: pre, Cache: cache, Fresh: true, NulSplit: true, Queries: []QCase{
+				{E: E("a", "b\x00c")}, {E: E("a\x00b", "c")}, {E: &Ex{Op: "O", Kids: []*Ex{E("a\x00b", "c"), E("a", "q")}}, GB: []string{hx("z")}},
+				{E: &Ex{Op: "N", Kids: []*Ex{E("a", "b\x00c")}}}, {E: &Ex{Op: "N", Kids: []*Ex{E("a\x00b", "c")}}}}}
+			runIdxCase(o, c, rep, flagsFor("C03"))
+			rep.Count("nul-split-unknown-column")
+		}
+	}
+	// several goroutines look up cold leaves at the same moment (a server right after start, a connection pool), then
+	// the SAME index answers sequential queries: what the concurrent phase left in the cache must be right
+	for round := 0; round < 6; round++ {
+		d := &DataSpec{Seed: r.U64(), NRows: 3000, Cols: []ColSpec{{Name: hx("k"), NVals: 600, Dist: "random", Style: "ascii"}, {Name: hx("g"), NVals: 3, Dist: "random", Style: "ascii"}}}
+		rows := d.Materialize()
+		path := scratch(fmt.Sprintf("c03-warm-%d.updog", round))
+		os.Remove(path)
+		if _, err := buildIndexFile("mem", rows, path); err != nil {
+			infra("build: %v", err)
+		}
+		idx, _, err := openIdx(path, round%2 == 1, 1<<24)
+		fresh, _, err2 := openIdx(path, false, -1)
+		if err != nil || err2 != nil {
+			infra("open: %v %v", err, err2)
+		}
+		var wg sync.WaitGroup
+		for g := 0; g < 8; g++ {
+			wg.Add(1)
+			go func(g int) {
+				defer wg.Done()
+				for k := g; k < 600; k += 8 {
+					safeExecute(idx, &updog.Query{Expr: &updog.ExprEqual{Column: "k", Value: fmt.Sprint(k)}})
+				}
+			}(g)
+		}
+		wg.Wait()
+		bad := 0
+		first := ""
+		for k := 0; k < 600; k++ {
+			q := func() *updog.Query {
+				return &updog.Query{Expr: &updog.ExprOr{Exprs: []updog.Expression{&updog.ExprEqual{Column: "k", Value: fmt.Sprint(k)}, &updog.ExprEqual{Column: "k", Value: fmt.Sprint((k + 1) % 600)}}}}
+			}
+			got, want := safeExecute(idx, q()), safeExecute(fresh, q())
+			if got != want {
+				bad++
+				if first == "" {
+					first = fmt.Sprintf("k=%d|k=%d: cached index %s, fresh uncached index %s", k, (k+1)%600, got, want)
+				}
+			}
+		}
+		idx.Close()
+		fresh.Close()
+		os.Remove(path)
+		rep.Eval(fmt.Sprintf("concurrent-warmup-%d", round), true)
+		rep.Count("concurrent-warmup-rounds")
+		if bad > 0 {
+			rep.Violate(Violation{Kind: "schedule", Signature: "C03:differs-from-fresh", What: fmt.Sprintf("after 8 goroutines looked up 600 cold leaves at once, %d of 600 sequential queries on the same cached index differ from a fresh uncached index; first: %s", bad, first), Expected: "equal answers", Actual: first, Case: map[string]any{"scenario": "concurrent warm-up", "preload": round%2 == 1, "seed": d.Seed}})
+			break
 		}
 	}
 	if tier == "thorough" {
